@@ -954,6 +954,9 @@ func (th *Thread) concInt(v Value) int64 {
 // inBounds branches on 0 <= i < n and panics (Go panic) when violated.
 func (th *Thread) checkIndex(i *Term, n int, signed bool) {
 	var ok *Term
+	if i.W == IntW {
+		i = ToBV(i, 64)
+	}
 	if i.Op == OpConst {
 		v := int64(i.Val)
 		if signed {
